@@ -30,14 +30,17 @@ class _Span(Span):
 
     def close(self):
         self.closes.append((threading.get_ident(), self.proc.drv.current_seq()))
-        self.proc.drv.effect('closed', self)
+        if self.proc.primary:
+            self.proc.drv.effect('closed', self)
 
 
 class _SpanProc(SpanProcessor):
-    def __init__(self, drv):
-        Plugin.__init__(self, name='spanrec')
+    def __init__(self, drv, primary=True):
+        Plugin.__init__(self, name='spanrec' if primary else 'spanrec2')
         self.drv = drv
         self.spans = []
+        self.primary = primary      # the primary processor's spans are the ones the trace shows; a second healthy
+                                    # processor's spans are only counted: each is closed exactly as often as its twin
 
     def is_active(self):
         return True
@@ -45,7 +48,8 @@ class _SpanProc(SpanProcessor):
     def create_span(self, name, context_id, tracepoint_id):
         s = _Span(self, name, context_id, tracepoint_id)
         self.spans.append(s)
-        self.drv.effect('opened', s)
+        if self.primary:
+            self.drv.effect('opened', s)
         return s
 
     def current_span(self):
@@ -141,8 +145,9 @@ class Scenario:
         self.snap_open = {}
         self.deferred = []
         self.frame_results = {}
+        self.spanproc2 = _SpanProc(self, primary=False)
         self.rig = R.Rig(plugins=[_BrokenSpanProc('brokenspan1'), self.spanproc, _Decorator(self),
-                                  _BrokenSpanProc('brokenspan2')], push=self.push)
+                                  _BrokenSpanProc('brokenspan2'), self.spanproc2], push=self.push)
         # everything goes through the real TracepointConfigService: the service's part as poll answers, the rest as
         # registrations made in code
         self.rig.install_via_service(real)
@@ -320,6 +325,20 @@ class Scenario:
         finally:
             self.no_agent = False
         return out
+
+    def span_problems(self):
+        """Every healthy span processor gets a span of its own for every opening, closed exactly as often as its twin."""
+        out = []
+        a, b = self.spanproc.spans, self.spanproc2.spans
+        if len(a) != len(b):
+            out.append('the first span processor created %d spans, the second one %d' % (len(a), len(b)))
+        for x, y in zip(a, b):
+            if (x.tp_id, x.open_seq) != (y.tp_id, y.open_seq):
+                out.append('span processors disagree on what was opened: %s vs %s' % ((x.tp_id, x.open_seq), (y.tp_id, y.open_seq)))
+            elif len(x.closes) != len(y.closes):
+                out.append('the span of tracepoint %s opened at event %s was closed %d time(s) for the first span '
+                           'processor and %d time(s) for the second' % (x.tp_id, x.open_seq, len(x.closes), len(y.closes)))
+        return out[:3]
 
     def capture_problems(self):
         """Deferred snapshots: completed on the opening thread, carrying the result of the opening invocation."""
